@@ -62,6 +62,40 @@ def run(F, R, tier):
         R.ob("argv-provenance", "CliArgs::new: argv = [script] ++ args, in order", ok, t[:260], F.loc(cn))
         muts = [x["m"] for x in H.walk(H.body_of(cn)) if x.get("k") == "mcall" and H.render(x["recv"]) == "args"]
         R.ob("argv-provenance", "argv is only built with push(script) then extend_from_slice(args)", muts == ["push", "extend_from_slice"], str(muts), F.loc(cn))
+    # the command-line surface clap is told to parse: per argument, the behaviour-relevant builder calls of the derived
+    # parser (help texts and value names are cosmetic).  `--`, dash-prefixed values and where options may appear are
+    # decided by these settings: e.g. trailing_var_arg / allow_hyphen_values on `args` make a later `--` part of argv.
+    au = F.fn("<cliargs::Args as clap::Args>::augment_args")
+    if R.anchor("clap derive of cliargs::Args", au):
+        COSMETIC = {"help", "long_help", "value_name", "about", "version", "author", "next_line_help", "display_order", "hide", "next_help_heading", "help_heading"}
+        per, cur = {}, None
+        seq = []
+        for x in H.walk(H.body_of(au)):
+            if x.get("k") in ("call", "mcall") and "clap" in str(x.get("callee") or ""):
+                nm = H.last(x["callee"])
+                lits = [H.strip(a).get("v") for a in x.get("args", []) if H.strip(a).get("k") == "lit"]
+                seq.append((nm, lits))
+        # the derive emits, per field: arg( <builder chain> Arg::new("<id>") ... ) — group the chain by the id that follows
+        chain = []
+        for nm, lits in seq:
+            if nm == "arg":
+                chain = []
+                cur = None
+                continue
+            if nm == "new" and lits and isinstance(lits[0], str) and lits[0] in ("command", "script", "args", "skip_pcap") and cur is None and chain is not None:
+                cur = lits[0]
+                per[cur] = set(chain)
+                continue
+            if cur is not None and nm not in COSMETIC and nm != "new":
+                per[cur].add(nm + (":" + ",".join(map(str, lits)) if lits else ""))
+            elif cur is None and nm not in COSMETIC and nm != "new" and chain is not None:
+                chain.append(nm + (":" + ",".join(map(str, lits)) if lits else ""))
+        want = {"command": {"action", "value_parser", "long:command", "short:c"},
+                "script": {"action", "value_parser"},
+                "args": {"action", "value_parser", "num_args"},
+                "skip_pcap": {"action", "value_parser", "required", "takes_values", "default_value", "long:skip-pcap", "short:s"}}
+        for a_, w in want.items():
+            R.ob("cli-surface", "argument `%s`" % a_, per.get(a_) == w, "parser settings %s (reference %s)" % (sorted(per.get(a_) or []), sorted(w)), F.loc(au))
     ga = F.fn("cliargs::CliArgs::get_args")
     if R.anchor("CliArgs::get_args", ga):
         R.ob("argv-provenance", "get_args returns the vector as built", H.render(H.body_of(ga)) == "self.args.as_slice()", H.render(H.body_of(ga)), F.loc(ga))
